@@ -41,3 +41,18 @@ Fixpoint wfb_from (s : sys) (ops : list op) : bool :=
   end.
 Definition wfb (ops : list op) : bool := wfb_from empty_sys ops.
 
+
+(* the weaker hypothesis of the theorems about truncated logs (Proofs/PSys.v: pwf): hash-consistent
+   appends, joins with any bound *)
+Definition pwf_stepb (s : sys) (o : op) : bool :=
+  match o with
+  | OJoin _ _ _ => true
+  | _ => wf_stepb s o
+  end.
+
+Fixpoint pwfb_from (s : sys) (ops : list op) : bool :=
+  match ops with
+  | [] => true
+  | o :: ops' => pwf_stepb s o && pwfb_from (fst (step s o)) ops'
+  end.
+Definition pwfb (ops : list op) : bool := pwfb_from empty_sys ops.
